@@ -349,8 +349,17 @@ func (ck *Check) Main(args []string) {
 		var wg sync.WaitGroup
 		var done int64
 		bstart := time.Now()
+		// hang watchdog: which run each worker is in, and since when
+		curRun := make([]int64, workers)
+		curSince := make([]int64, workers)
+		for w := range curRun {
+			curRun[w] = -1
+		}
+		wdStop := make(chan struct{})
+		go ck.watchdog(b, seed, tier, curRun, curSince, wdStop)
 		for w := 0; w < workers; w++ {
 			wg.Add(1)
+			w := w
 			go func() {
 				defer wg.Done()
 				st := NewStats()
@@ -359,8 +368,11 @@ func (ck *Check) Main(args []string) {
 					if i >= n {
 						break
 					}
+					atomic.StoreInt64(&curSince[w], time.Now().UnixNano())
+					atomic.StoreInt64(&curRun[w], int64(i))
 					t := NewTape(Mix(seed, ck.Prop+"/"+b.Name, uint64(i)))
 					out := safeRun(b, &RunCtx{T: t, Index: i, Tier: tier, St: st})
+					atomic.StoreInt64(&curRun[w], -1)
 					atomic.AddInt64(&done, 1)
 					if out != nil {
 						mu.Lock()
@@ -379,6 +391,7 @@ func (ck *Check) Main(args []string) {
 			}()
 		}
 		wg.Wait()
+		close(wdStop)
 		evals += done
 		perBatch[b.Name] = map[string]any{"runs": done, "planned": n, "enumerated": b.Enumerated, "wall_s": round3(time.Since(bstart).Seconds())}
 		if int(done) < n {
@@ -568,9 +581,15 @@ func (ck *Check) replay(path string) int {
 			continue
 		}
 		var out *Outcome
-		if b.Isolated {
+		if b.Isolated || (rf.Outcome != nil && rf.Outcome.Class == "hang") {
 			var ok bool
-			out, _, ok = ck.runTapeIsolated(b, rf.Seed, rf.Tier, rf.Run, rf.Tape, true)
+			bb := *b
+			if !b.Isolated {
+				// a recorded hang is replayed in a child process under a time limit
+				bb.ChildTimeout = 90 * time.Second
+				bb.TimeoutIsViolation = true
+			}
+			out, _, ok = ck.runTapeIsolated(&bb, rf.Seed, rf.Tier, rf.Run, rf.Tape, true)
 			if !ok {
 				fmt.Fprintln(os.Stderr, "replay: child gave no verdict")
 				return 2
@@ -648,4 +667,57 @@ func (ck *Check) reportIsolated(v viol, seed uint64, tier string) string {
 	}
 	fmt.Printf("violation class=%s batch=%s run=%d reproduced_in_fresh_process=%v: %s\n", out.Class, b.Name, v.run, reproduced, out.Detail)
 	return path
+}
+
+// watchdog detects a run that does not return (library code looping for ever
+// cannot be interrupted from inside the process).  A run that has been going for
+// hangAfter is re-executed in a fresh child process with a generous limit: only
+// if the child does not finish either is it reported as a violation (class
+// "hang"); a merely slow machine never produces a VIOLATION.
+func (ck *Check) watchdog(b *Batch, seed uint64, tier string, curRun, curSince []int64, stop chan struct{}) {
+	hangAfter := 30 * time.Second
+	if s := os.Getenv("VERIF_HANG_AFTER_S"); s != "" {
+		if v, err := strconv.Atoi(s); err == nil && v > 0 {
+			hangAfter = time.Duration(v) * time.Second
+		}
+	}
+	checked := map[int64]bool{}
+	tick := time.NewTicker(2 * time.Second)
+	defer tick.Stop()
+	for {
+		select {
+		case <-stop:
+			return
+		case <-tick.C:
+		}
+		now := time.Now().UnixNano()
+		for w := range curRun {
+			i := atomic.LoadInt64(&curRun[w])
+			if i < 0 || checked[i] || time.Duration(now-atomic.LoadInt64(&curSince[w])) < hangAfter {
+				continue
+			}
+			checked[i] = true
+			fmt.Fprintf(os.Stderr, "watchdog: run %d of batch %s has not returned for %v; re-executing it in a child process\n", i, b.Name, hangAfter)
+			bb := *b
+			bb.ChildTimeout = 3 * hangAfter
+			bb.TimeoutIsViolation = true
+			r := ck.spawn(&bb, seed, []string{"child", b.Name, tier, strconv.Itoa(int(i)), strconv.Itoa(int(i) + 1)}, nil, false)
+			if !r.timedOut {
+				fmt.Fprintf(os.Stderr, "watchdog: the child finished (exit %d): slow, not hanging\n", r.exitCode)
+				continue
+			}
+			out := &Outcome{Class: "hang", Key: "hang:" + b.Name, Detail: fmt.Sprintf("run %d did not return within %v in-process nor within %v in a fresh child process: the library call does not terminate", i, hangAfter, 3*hangAfter)}
+			tape := RawTape(Mix(seed, ck.Prop+"/"+b.Name, uint64(i)), 1<<12)
+			rf := ReplayFile{Property: ck.Prop, Harness: ck.Harness, Batch: b.Name, Seed: seed, Run: int(i), Tier: tier, Tape: tape, Build: os.Getenv("VERIF_BUILD"), Outcome: out}
+			dir := os.Getenv("VERIF_REPLAY_DIR")
+			if dir == "" {
+				dir = filepath.Join(VerifDir(), "replays")
+			}
+			path := filepath.Join(dir, fmt.Sprintf("%s-%s-%d-%d.json", ck.Prop, b.Name, seed, i))
+			writeJSON(path, rf)
+			fmt.Printf("violation class=hang batch=%s run=%d: %s\n", b.Name, i, out.Detail)
+			fmt.Printf("VIOLATION property=%s replay=%s\n", ck.Prop, path)
+			os.Exit(1)
+		}
+	}
 }
